@@ -760,7 +760,15 @@ def run_accounts(ctx, only=None):
                     for b_ in accts:
                         ops[b_].append('reopen')
                         obs[b_].append((len(descr) - 1, observe(b_)))
-            except WalletError as e:
+            except WalletError as e_:
+                refusal = str(e_)
+            else:
+                refusal = None
+            if refusal is not None:
+                # (outside the except block: the traceback of the refusal keeps rows of the unfinished transaction alive, and Wallet.utxos()
+                #  strips the ORM state off the row objects it returns - a row that is still alive would be unusable for the session afterwards)
+                e = refusal
+                box['w'].session.rollback()
                 listed = sum(u['value'] for u in box['w'].utxos(account_id=a))
                 if 0.35 <= r < 0.8 and listed > 20000 and 'unspent' in str(e).lower():
                     # the account lists unspent outputs worth far more than the payment (at most half of them) and its fee, yet the wallet finds
